@@ -16,7 +16,8 @@ struct GenCfg
   i64 emin_keV = -1;      // -1: no window bound; any other value (also a negative one, e.g. -2000) is a bound in keV
   bool has_window() const { return emin_keV != -1 || emax_keV != -1; }
   i64 emax_keV = -1;
-  int mdl = 0;            // 0 none, 1.. presets of the momentum-direction-lock op
+  int mdl = 0;            // 0 none, 1.. presets of the post-generation operation (1-4 momentum-direction-lock, 5-6 user-defined classes)
+  bool debug = false;     // set_debug(true) on the generator (traces on the diagnostic stream)
   std::string key() const;
   bool is_dbd() const { return cat == 1; }
 };
